@@ -281,32 +281,59 @@ def run(ctx):
             ver_stmt = st
     if ver is None:
         raise AnalysisError("R2.5: `version = values[-1]` not found")
-    trunc = [st for st in ast.walk(body) if isinstance(st, ast.If) and isinstance(st.test, ast.Compare) and norm(st.test.left) == f"len({valvar})"
-             and isinstance(st.test.ops[0], ast.Gt) and norm(st.test.comparators[0]) == exp]
-    ctx.check(len(trunc) == 1, "R2.5", "unpack_obj:record:truncation-guard", f"no `if len({valvar}) > {exp}` truncation", body, "guard present", key="R2.5:truncation-guard")
-    if trunc:
+    # the names that hold the value list: plain copies of one another (an extracted helper's parameter and result are copies of the caller's list)
+    vclass = {valvar}
+    grew = True
+    while grew:
+        grew = False
+        for st in ast.walk(body):
+            if isinstance(st, ast.Assign) and len(st.targets) == 1 and isinstance(st.targets[0], ast.Name) and isinstance(st.value, ast.Name) \
+                    and (st.targets[0].id in vclass) != (st.value.id in vclass):
+                vclass |= {st.targets[0].id, st.value.id}
+                grew = True
+
+    def _is_cut(v):
+        if isinstance(v, ast.BinOp) and isinstance(v.op, ast.Add) and isinstance(v.right, ast.Tuple):
+            v = v.left
+        return isinstance(v, ast.Subscript) and isinstance(v.slice, ast.Slice) and v.slice.lower is None and v.slice.step is None and v.slice.upper is not None and norm(v.value) in vclass
+
+    cuts = [st for st in ast.walk(body) if isinstance(st, ast.Assign) and len(st.targets) == 1 and norm(st.targets[0]) in vclass and _is_cut(st.value)]
+    from ..core import enclosing_function as _ef5
+    from .. import logic as _lg5
+    fn5 = _ef5(body)
+    cfg5 = CFG(fn5)
+    guarded = []
+    for ct in cuts:
+        prem5 = _lg5.facts_as_premises(cfg5.facts_at(cfg5.node_of(ct).id))
+        if any(_lg5.implies(prem5, _lg5.parse(f"len({y}) > {exp}")) for y in sorted(vclass)):
+            guarded.append(ct)
+    ctx.check(len(cuts) == 1 and len(guarded) == 1, "R2.5", "unpack_obj:record:truncation-guard", f"the value list is not cut exactly once, on the paths where `len({valvar}) > {exp}` holds "
+              f"({len(cuts)} cut(s), {len(guarded)} under that fact)", body, "guard present", key="R2.5:truncation-guard")
+    if guarded:
+        cut = guarded[0]
+        blk5 = next((getattr(par, attr) for par in ast.walk(fn5) for attr in ("body", "orelse", "finalbody") if isinstance(getattr(par, attr, None), list) and cut in getattr(par, attr)), [cut])
         kept = None
         appended = 0
         appended_is_version = True
-        for st in trunc[0].body:
-            if isinstance(st, ast.Assign) and norm(st.targets[0]) == valvar:
+        for st in blk5[blk5.index(cut):]:
+            if isinstance(st, ast.Assign) and norm(st.targets[0]) in vclass and not isinstance(st.value, ast.Name):
                 v = st.value
                 extra = 0
                 if isinstance(v, ast.BinOp) and isinstance(v.op, ast.Add) and isinstance(v.right, ast.Tuple):
                     extra = len(v.right.elts)
                     appended_is_version &= all(norm(e) == ver for e in v.right.elts)
                     v = v.left
-                if isinstance(v, ast.Subscript) and isinstance(v.slice, ast.Slice) and v.slice.lower is None and v.slice.step is None and norm(v.value) == valvar:
+                if isinstance(v, ast.Subscript) and isinstance(v.slice, ast.Slice) and v.slice.lower is None and v.slice.step is None and norm(v.value) in vclass:
                     kept = linear(v.slice.upper, exp)
                     appended += extra
-            elif isinstance(st, ast.AugAssign) and norm(st.target) == valvar and isinstance(st.op, ast.Add) and isinstance(st.value, ast.Tuple):
+            elif isinstance(st, ast.AugAssign) and norm(st.target) in vclass and isinstance(st.op, ast.Add) and isinstance(st.value, ast.Tuple):
                 appended += len(st.value.elts)
                 appended_is_version &= all(norm(e) == ver for e in st.value.elts)
-        ok = kept is not None and kept[0] == 1 and kept[1] + appended == 0 and appended == 1 and appended_is_version and ordkey(ver_stmt) < ordkey(trunc[0])
+        ok = kept is not None and kept[0] == 1 and kept[1] + appended == 0 and appended == 1 and appended_is_version and ordkey(ver_stmt) < ordkey(cut)
         ctx.check(ok, "R2.5", "unpack_obj:record:truncation",
                   f"after truncation the record keeps {exp}{kept[1]:+d} leading value(s) plus {appended} appended value(s)" if kept else "truncation shape not recognised" +
                   "; the format requires the declared+reserved leading values with the ORIGINAL last value as version (an extra metadata value would "
-                  "land in the version slot)", trunc[0], f"values[:{exp}-1] + (original last value,)", key="R2.5:unpack_obj:record:truncation-count")
+                  "land in the version slot)", cut, f"values[:{exp}-1] + (original last value,)", key="R2.5:unpack_obj:record:truncation-count")
     # no raise between descriptor lookup and _unpack except descriptor-not-found
     raises = [n for n in ast.walk(body) if isinstance(n, ast.Raise)]
     ok = all("NotFound" in norm(r) for r in raises)
